@@ -5,6 +5,11 @@ twin graph and must succeed and write some .grad: that is what makes the case no
 one argument has been made invalid, at a chosen position.  The real function is called with the invalid
 arguments; the contract is:  an exception is raised (C20.noraise otherwise)  and the state of ALL tensors of
 the program (value, .grad value, .grad object identity and version) is what it was before (C20.partial).
+
+The kind ``mutated_state`` is a history on the SAME tensor objects: a valid call (retained graph), then the user
+changes the state of one listed parameter so that it no longer expects a .grad (requires_grad_(False), detach_(), or
+an in-place operation that turns it into a non-leaf), then the same call again: it must be rejected without any
+change, whatever the verdict of the earlier call on that tensor was.
 """
 from __future__ import annotations
 
@@ -19,7 +24,10 @@ from ._autojac import (choose_inputs, full_state, mtl_all_tensors, mtl_kwargs, n
 
 RULE = ("a valid call (random gen.build / gen.build_mtl program x aggregator x chunk size x retain_graph x "
         "pre-existing .grad none/some/all x explicit/defaulted parameter lists) with ONE argument made invalid: "
-        "kind of invalidity x position of the offending element in its list x variant. Oracle: the call must raise "
+        "kind of invalidity x position of the offending element in its list x variant (non-positive chunk sizes of "
+        "every numeric kind: python int / bool / float, numpy int32 / int64 / float64, 0-dim torch tensors; "
+        "mutated_state: the argument became invalid between two calls on the same tensors, for a parameter of any "
+        "task, the later tasks first, or a shared parameter). Oracle: the call must raise "
         "and full_state (data, .grad value/object/version of every leaf, node and output) must be unchanged. "
         "distinct = (function, kind, variant, position, program trace, pre-grad mode); non-trivial = the valid "
         "twin call succeeds and modifies at least one .grad (so a partial write was possible)")
@@ -29,8 +37,11 @@ EXHAUSTIVE = ("thorough: every (function, kind, variant) x every position 0..5 x
               "(the kinds are the list of the property statement + aggregator rejection in backward)")
 
 # (kind, variants)
+CHUNKS_NONPOS = ["0", "-1", "-7", "np.int64(0)", "np.int32(-2)", "np.int64(-1)", "0.0", "-2.0", "np.float64(-0.5)",
+                 "torch(0)", "torch(-1)", "torch(0.0)", "False"]
 BACKWARD_KINDS = [
-    ("chunk_nonpos", ["0", "-1", "-7"]),
+    ("chunk_nonpos", CHUNKS_NONPOS),
+    ("mutated_state", ["freeze_input", "detach_input", "nonleaf_input"]),
     ("empty_tensors", ["inputs_given", "inputs_default"]),
     ("dup_tensors", ["adjacent", "far"]),
     ("input_nonleaf", ["in_graph", "fresh"]),
@@ -40,7 +51,8 @@ BACKWARD_KINDS = [
     ("agg_nonfinite", ["nan", "inf"]),
 ]
 MTL_KINDS = [
-    ("chunk_nonpos", ["0", "-1", "-7"]),
+    ("chunk_nonpos", CHUNKS_NONPOS),
+    ("mutated_state", ["freeze_task", "detach_task", "nonleaf_task", "freeze_shared", "nonleaf_shared"]),
     ("empty_features", ["explicit", "default"]),
     ("empty_losses", ["explicit", "default"]),
     ("nonscalar_loss", ["reshape1", "vector"]),
@@ -102,6 +114,34 @@ def cases(tier, seed, focus=None):
 # ----------------------------------------------------------------------------- building the calls
 
 
+def _chunk_value(variant: str):
+    """The non-positive chunk size named by the variant, in the numeric kind it names."""
+    import numpy as np
+
+    if variant.startswith("torch("):
+        return torch.tensor(float(variant[6:-1]) if "." in variant else int(variant[6:-1]))
+    if variant.startswith("np."):
+        return eval(variant, {"np": np})
+    if variant == "False":
+        return False
+    return float(variant) if "." in variant else int(variant)
+
+
+def _mutate(target, variant):
+    """The user makes ``target`` (a leaf requiring grad) a tensor that does not expect a .grad any more."""
+    overlapping = any(st == 0 and sz > 1 for st, sz in zip(target.stride(), target.shape))
+    if (variant.startswith("freeze") or (variant.startswith("nonleaf") and overlapping)
+            or (variant.startswith("detach") and target._is_view())):  # (torch refuses detach_() on views)
+        target.requires_grad_(False)
+    elif variant.startswith("detach"):
+        target.detach_()
+    else:  # in place, the same object becomes a non-leaf tensor that requires grad (value unchanged)
+        helper = torch.ones((), dtype=target.dtype, requires_grad=True)
+        target.requires_grad_(False)
+        target.add_(helper * 0.0)
+        assert target.requires_grad and not target.is_leaf
+
+
 def _insert(lst, pos, item):
     lst = list(lst)
     lst.insert(pos % (len(lst) + 1), item)
@@ -121,8 +161,18 @@ def _backward_calls(p: gen.Program, case):
     bad = dict(valid)
     bad["aggregator"] = make_agg(agg_spec, m, dtype)
     extra = []
+    prep = None
     if kind == "chunk_nonpos":
-        bad["parallel_chunk_size"] = int(variant)
+        bad["parallel_chunk_size"] = _chunk_value(variant)
+    elif kind == "mutated_state":
+        from torchjd import backward
+
+        first = dict(valid, aggregator=make_agg(agg_spec, m, dtype), retain_graph=True)
+        target = inputs[pos % len(inputs)]
+
+        def prep():
+            backward(**first)  # valid: must succeed (a crash of the checker otherwise)
+            _mutate(target, variant)
     elif kind == "empty_tensors":
         bad["tensors"] = []
         if variant == "inputs_default":
@@ -175,7 +225,7 @@ def _backward_calls(p: gen.Program, case):
         bad["aggregator"] = make_agg(agg_spec, n_rows(outs), dtype)
     else:
         raise KeyError(kind)
-    return valid, bad, extra
+    return valid, bad, extra, prep
 
 
 def _mtl_calls(p: gen.MTLProgram, case):
@@ -190,10 +240,28 @@ def _mtl_calls(p: gen.MTLProgram, case):
     explicit["aggregator"] = make_agg(agg_spec, t, dtype)
     bad = explicit
     extra = []
+    prep = None
     if kind == "chunk_nonpos":
         bad = dict(mtl_kwargs(p, case["tp"], case["sp"]), **common)
         bad["aggregator"] = make_agg(agg_spec, t, dtype)
-        bad["parallel_chunk_size"] = int(variant)
+        bad["parallel_chunk_size"] = _chunk_value(variant)
+    elif kind == "mutated_state":
+        from torchjd import mtl_backward
+
+        first = dict(mtl_kwargs(p, case["tp"], case["sp"]), **common)
+        first.update(aggregator=make_agg(agg_spec, t, dtype), retain_graph=True)
+        if variant.endswith("task"):
+            cand = [i for i, g in enumerate(p.tasks_params) if g][::-1]  # the later tasks first
+            if not cand:
+                return None
+            g = p.tasks_params[cand[pos % len(cand)]]
+            target = g[(pos // 2) % len(g)]
+        else:
+            target = p.shared[pos % len(p.shared)]
+
+        def prep():
+            mtl_backward(**first)  # valid: must succeed (a crash of the checker otherwise)
+            _mutate(target, variant)
     elif kind == "empty_features":
         bad["features"] = []
         if variant == "default":
@@ -287,7 +355,7 @@ def _mtl_calls(p: gen.MTLProgram, case):
             bad["tasks_params"] = g
     else:
         raise KeyError(kind)
-    return valid, bad, extra
+    return valid, bad, extra, prep
 
 
 # ----------------------------------------------------------------------------- the check
@@ -314,10 +382,13 @@ def run_case(case):
     sig = f"{fn}|{case['kind']}|{case['variant']}|{case['pos']}|{case['pre']}|" + "|".join(trace)
     if built1 is None:
         return {"ok": True, "sig": sig, "nontrivial": False, "note": "kind not applicable to this program"}
-    _, bad, extra = built1
-    valid2, _, _ = built2
+    _, bad, extra, prep = built1
+    valid2 = built2[0]
     set_pregrads(leaves1, case["sel_seed"], case["pre"])
     set_pregrads(leaves2, case["sel_seed"], case["pre"])
+    if prep is not None:  # the earlier, valid part of the history on the same tensors
+        torch.manual_seed(case["sel_seed"])
+        prep()
 
     # the valid remainder, on the twin: must be accepted (otherwise the generator is wrong -> crash) and write
     g_before = [None if t.grad is None else t.grad.clone() for t in leaves2]
